@@ -50,8 +50,8 @@ CLAIMED = {
     ),
     "C11": dict(
         category="proof",
-        text="Frame (no write to argument storage) and label-preservation contracts: generate_centroids (result = anchor if visible else bounding-box midpoint of the visible nodes, NaN when none; input keypoints untouched), find_points_bbox_midpoint, generate_crops, apply_resizer, apply_pad_to_stride and the confidence-map / PAF generators (every argument tensor provably unmodified on every path; missing keypoints stay NaN / contribute a zero channel). The write-through of the fallback midpoint into the caller's keypoints in the pinned tree was found by the frame obligation and repaired (fix: commit in known_findings.txt).",
-        note="node axis of the centroid functions unrolled (1..3 nodes). Aliasing rules of torch views/copies are part of the trusted tensor model. Not decided: the Dataset classes (__getitem__ determinism over call sequences, cache immutability, _get_lf_idx_list/_get_instance_idx_list filters, __len__) and process_lf -- custom_datasets does not import here and needs sleap_io object models.",
+        text="Frame (no write to argument storage) and label-preservation contracts: generate_centroids (result = anchor if visible else bounding-box midpoint of the visible nodes, NaN when none; input keypoints untouched), find_points_bbox_midpoint, generate_crops, apply_resizer, apply_pad_to_stride and the confidence-map / PAF generators (every argument tensor provably unmodified on every path; missing keypoints stay NaN / contribute a zero channel). BOUNDED part: process_lf on frames with 1..3 instances (user-made / predicted patterns, each possibly empty), 1..2 nodes: the sample holds exactly the non-empty labelled instances in order with their coordinates unchanged (missing keypoints stay NaN) followed by NaN padding, num_instances is their count, the image is the frame image channel-first, and it carries its own frame / video index and size. The write-through of the fallback midpoint into the caller's keypoints in the pinned tree was found by the frame obligation and repaired (fix: commit in known_findings.txt).",
+        note="node axis of the centroid functions unrolled (1..3 nodes). Aliasing rules of torch views/copies are part of the trusted tensor model. Not decided: the Dataset classes (__getitem__ determinism over call sequences, cache immutability, _get_lf_idx_list/_get_instance_idx_list filters, __len__) -- custom_datasets does not import here and needs sleap_io / kornia object models.",
         technique="contract-based deductive verification: symbolic execution with storage/alias tracking, frame obligations discharged by z3",
         design="3/C11",
     ),
